@@ -70,9 +70,11 @@ class WCCN(TransformerMixin, BaseEstimator):
         # 2. Compute Sw
         Sw = numerical_module.zeros((X.shape[1], X.shape[1]), dtype=float)
 
-        for label in possible_labels:
+        # mu_l is ordered like possible_labels: address it by position, not by
+        # the value of the label (labels need not be 0..n_classes-1)
+        for i, label in enumerate(possible_labels):
             indexes = numerical_module.where(y_ == label)[0]
-            X_l_mu_l = X[indexes] - mu_l[label]
+            X_l_mu_l = X[indexes] - mu_l[i]
 
             Sw += X_l_mu_l.T @ X_l_mu_l
 
